@@ -13,7 +13,10 @@ import (
 func init() {
 	// snssai: {sst, sd} -> SnssaiToNas
 	lineCmds["snssai"] = func(in map[string]interface{}) map[string]interface{} {
-		return map[string]interface{}{"out": hx(nasConvert.SnssaiToNas(models.Snssai{Sst: int32(num(in, "sst")), Sd: str(in, "sd")}))}
+		b := nasConvert.SnssaiToNas(models.Snssai{Sst: int32(num(in, "sst")), Sd: str(in, "sd")})
+		out := map[string]interface{}{"out": hx(b)}
+		retain(out, "snssai", b)
+		return out
 	}
 	// amfid: {amfid} -> region, set, pointer
 	lineCmds["amfid"] = func(in map[string]interface{}) map[string]interface{} {
@@ -31,6 +34,7 @@ func init() {
 		}
 		t := ngapConvert.IPAddressToNgap(v4s, v6s)
 		out := map[string]interface{}{"bytes": hx(t.Value.Bytes), "bitlen": t.Value.BitLength}
+		retain(out, "ipaddr", t.Value.Bytes)
 		b4, b6 := ngapConvert.IPAddressToString(t)
 		out["back4"], out["back6"] = "", ""
 		if b4 != "" {
@@ -76,7 +80,9 @@ func init() {
 		b := p.Marshal()
 		q := nasConvert.NewProtocolConfigurationOptions()
 		err := q.UnMarshal(b)
-		return map[string]interface{}{"bytes": hx(b), "err": errs(err), "units": dump(q)}
+		out := map[string]interface{}{"bytes": hx(b), "err": errs(err), "units": dump(q)}
+		retain(out, "pco", b)
+		return out
 	}
 	lineCmds["pcodec"] = func(in map[string]interface{}) map[string]interface{} {
 		q := nasConvert.NewProtocolConfigurationOptions()
@@ -89,6 +95,8 @@ func init() {
 		b, _ := d.MarshalBinary()
 		var e util_3gpp.Dnn
 		e.UnmarshalBinary(b)
-		return map[string]interface{}{"bytes": hx(b), "back": hx(e)}
+		out := map[string]interface{}{"bytes": hx(b), "back": hx(e)}
+		retain(out, "dnn", b)
+		return out
 	}
 }
